@@ -76,16 +76,11 @@ def set_history():
     return {"package": "inkayaku_engine_core", "append_to": "engine_core/src/engine/zobrist_history.rs", "module": _read("kani/history.rs")}
 
 
-def set_parser():
-    return {"package": "inkayaku_uci", "append_to": "uci/src/uci/parser.rs", "module": _read("kani/parser.rs")}
-
-
 def set_ucimove():
     return {"package": "inkayaku_uci", "append_to": "uci/src/uci.rs", "module": _read("kani/ucimove.rs")}
 
 
 SETS = {
-    "parser": set_parser,
     "attacks": set_attacks,
     "ucimove": set_ucimove,
     "history": set_history,
@@ -115,9 +110,6 @@ HARNESSES = {
     },
     "ucimove": {
         "uci_move_from_str_ascii_le5": {"complete": False, "bound": "ASCII strings of length <= 5 (every well-formed move text has length 4 or 5)", "note": "real UciMove::from_str incl. str::chars decoding and the error closures"},
-    },
-    "parser": {
-        "searchmoves_list_stops_at_every_go_keyword_len1": {"complete": False, "bound": "a queue holding one token out of a 16-word vocabulary (the 12 go keywords, two moves, a number, a junk word)", "note": "real parse_moves_until_one_of_or_end with the real GO_TOKENS"},
     },
     "history": {
         "count_repetitions_bounded_10": {"complete": False, "bound": "current ply index < 10 (symbolic hashes for plies 0..9, any u16 half-move clock); loops unwound 12 times with unwinding assertions",
